@@ -70,3 +70,4 @@ LEVEL = {
                  'for the pinned order) + forced-schedule enumeration of the real shard manager through pause hooks, compared with the model',
 }
 CFG['rule'] = CFG['rule'] + ' ' + 'Request handlers: the five real DoWithShard callbacks (RPCInsertPoints, RPCUpdatePoints, RPCDeletePoints, RPCSearchPoints, RPCGetShardInfo of a live ClusterNode, shardTimeout 1 s), one child process each: the request is parked at do:running until the idle timer has fired and the cleanup routine stands queued on the write lock of the entry (goroutine dump), then released; it must return without error, the routine must finish and a fresh request must load the shard again (CRpc; the theorems assume callbacks that return, this validates the assumption for the callbacks the node really passes).'
+CFG['rule'] = CFG['rule'] + ' ' + 'Every other schedule runs on a shard manager whose root directory is relative to the working directory of the child process.'
